@@ -10,6 +10,7 @@ import (
 
 	"verif/harness/core"
 	"verif/harness/plugin"
+	"verif/harness/rapidx"
 	"verif/harness/schema"
 )
 
@@ -82,7 +83,7 @@ func runC14(c *core.Ctx) error {
 	for k := 0; k < chunks; k++ {
 		var last *c14Case
 		n := 0
-		res := core.RapidCheck("C14", total/chunks, uint64(c.SubSeed(k)), 30*time.Second, func(t *rapid.T) {
+		res := rapidx.Check("C14", total/chunks, uint64(c.SubSeed(k)), 30*time.Second, func(t *rapid.T) {
 			s := schema.Generate(t, prof, "c0001")
 			n++
 			msg, common, file, err := c14Identity(c, s)
